@@ -79,6 +79,7 @@ class Sim:
         self.sched_lock = _thread.allocate_lock()
         self.sched_lock.acquire()
         self.in_probe = 0
+        self.probe_gen = 0
         self.stats = Counter()
         self.line_prefixes = tuple(line_prefixes)
         self.mean_quantum = mean_quantum
@@ -235,12 +236,24 @@ _real_alloc = _thread.allocate_lock
 
 
 class CoopLock:
+    """A probe is a forked universe (a restarted process): locks held in the main
+    universe must look free there, so inside a probe a per-probe shadow lock is used."""
+
     def __init__(self):
         self._l = _real_alloc()
+        self._shadow = None
+
+    def _probe_lock(self, sim):
+        sh = self._shadow
+        if sh is None or sh[0] != sim.probe_gen:
+            sh = self._shadow = (sim.probe_gen, _real_alloc())
+        return sh[1]
 
     def acquire(self, blocking=True, timeout=-1):
         sim = CURRENT
-        if sim is None or not sim._on_task() or sim.in_probe:
+        if sim is not None and sim.in_probe:
+            return self._probe_lock(sim).acquire(blocking, timeout)
+        if sim is None or not sim._on_task():
             return self._l.acquire(blocking, timeout)
         while not self._l.acquire(False):
             if not blocking:
@@ -249,18 +262,25 @@ class CoopLock:
         return True
 
     def release(self):
+        sim = CURRENT
+        if sim is not None and sim.in_probe:
+            return self._probe_lock(sim).release()
         self._l.release()
 
     def locked(self):
+        sim = CURRENT
+        if sim is not None and sim.in_probe:
+            return self._probe_lock(sim).locked()
         return self._l.locked()
 
     __enter__ = acquire
 
     def __exit__(self, *a):
-        self._l.release()
+        self.release()
 
     def _at_fork_reinit(self):
         self._l._at_fork_reinit()
+        self._shadow = None
 
 
 class CoopRLock:
